@@ -13,7 +13,7 @@
 #define VC_MAXBITS 3
 #endif
 #define XS_MAXM 2
-extern size_t g_pub_ubits, g_len0; extern const bn_st *g_pub_u;
+extern size_t g_pub_ubits, g_len0;
 extern const void *__CPROVER_alloca_object;
 #define XS_MAX(a, b) ((a) > (b) ? (a) : (b))
 #define XS_L(n, c, m) XS_MAX(((n) - 1) / ((c) * (m)) + 2, g_pub_ubits + 1)       /* public: ceil(n / (c m)) + 1 and bits(u) + 1 */
@@ -26,15 +26,22 @@ void bn_hlv_xs(bn_t c, const bn_t a) VC_ASSIGNS(VC_BNF(c)) __CPROVER_ensures(c->
 void bn_add_dig_xs(bn_t c, const bn_t a, dig_t b) VC_ASSIGNS(VC_BNF(c)) __CPROVER_ensures(c->used >= 1 && c->used <= RLC_BN_SIZE - 2);
 int bn_get_bit_xs(const bn_t a, uint_t bit) VC_ASSIGNS_NONE __CPROVER_ensures(__CPROVER_return_value == 0 || __CPROVER_return_value == 1);
 /* public for u; for a subscalar: SECRET, any length that fits the caller's columns */
+/* u is recognised by a ghost TAG in its (otherwise unused here) alloc field: pointer identity is prohibitively expensive (DESIGN P18) and call
+   order does not work (RLC_MAX evaluates bn_bits twice, depending on the data); u is only ever handed to this abstract bn_bits, the scratch
+   copies t[i] get alloc == RLC_BN_SIZE from the abstract bn_make */
+#define XS_UTAG 0x5AC0
 size_t bn_bits_xs(const bn_t a) VC_ASSIGNS_NONE
-__CPROVER_ensures(a == g_pub_u ? __CPROVER_return_value == g_pub_ubits : __CPROVER_return_value + 1 <= g_len0);
+__CPROVER_ensures(a->alloc == XS_UTAG ? __CPROVER_return_value == g_pub_ubits : __CPROVER_return_value < g_len0);
 void *memset_xs(void *s, int c, size_t n) VC_ASSIGNS(__CPROVER_object_upto(s, n));
 
 void bn_rec_sac(int8_t *b, size_t *len, const bn_t *k, const bn_t u, size_t c, size_t m, size_t n, int cof)
-__CPROVER_requires(m >= 1 && m <= XS_MAXM && c == 1 && n >= 1 && n <= VC_MAXBITS)
+__CPROVER_requires(m == XS_MAXM && c == 1 && n >= 1 && n <= VC_MAXBITS)
 __CPROVER_requires(__CPROVER_is_fresh(len, sizeof(size_t)) && *len <= VC_MAXBITS + 2 && g_len0 == *len)
 __CPROVER_requires(__CPROVER_is_fresh(b, XS_MAXM * (VC_MAXBITS + 2)) && __CPROVER_is_fresh(k, XS_MAXM * sizeof(bn_t)) && __CPROVER_is_fresh(u, sizeof(bn_st)))
-__CPROVER_requires(g_pub_u == u && g_pub_ubits >= 1 && XS_L(n, c, m) < *len)
+#ifdef C20X_SAC_COF0
+__CPROVER_requires(cof == 0)     /* curves with a cofactor: the clause LEN holds */
+#endif
+__CPROVER_requires(u->alloc == XS_UTAG && g_pub_ubits >= 1 && XS_L(n, c, m) < *len)
 /* no error on this path: the frame excludes the error state except what RLC_TRY itself saves and restores */
 VC_ASSIGNS(__CPROVER_alloca_object, __CPROVER_object_whole(b), *len, g_ctx.last, g_ctx.caught, g_ctx.error, g_ctx.number, g_thrown)
 __CPROVER_ensures(g_ctx.last == __CPROVER_old(g_ctx.last))
